@@ -26,8 +26,7 @@ hs = [B("verifC20Fx", fx + "r xor xb = a*b for a, b in {0,1}"),
       BV("verifC20VoleBV2", bv + "p=2, m=2"), BV("verifC20VoleBV3", bv + "p=3, m=2"), BV("verifC20VoleBV7", bv + "p=7, m=2"),
       BV("verifC20VoleBV13", bv + "p=13, m=2")]
 if tier != "quick":
-    hs += [UF("verifC20VoleUF9", uf + "m=9"),
-           Harness("verifC20VoleBV251", "./vole", OVS, flags=["-bigw", "264", "-unwind", "2000000"], expect_reach=["end"], desc=bv + "p=251, m=1 (with the bytes32 summary: the byte-length case split makes the 8-bit multiplier obligation time out)")]
+    hs += [UF("verifC20VoleUF9", uf + "m=9")]
 sys.exit(run_property(
     "C20", tier, hs, "other",
     "Bounded symbolic execution of the real BMR Fx/Fxk gadgets and the real VOLE Sender.Mul/Receiver.Mul. BMR: a, b, every label bit and the sender's randomness are symbolic; the "
@@ -40,7 +39,7 @@ sys.exit(run_property(
      "the uninterpreted-arithmetic VOLE harnesses (256-bit operands) use a summary of vole.bytes32 (big.Int.FillBytes) that verifC20Bytes32 proves equal to the real function for every value < 2^256; the small-prime kernel harnesses run the real bytes32",
      "VOLE obligation (1) treats big.Int.Mul/Mod as uninterpreted functions with Mod's contract; the step from the proved term equality to the congruence is the ring axioms (not mechanised)",
      "crypto/rand returns arbitrary bytes; goroutines under a cooperative scheduler switching at blocking operations"],
-    ["the modular identity with exact arithmetic for moduli above 13 (quick) / 251 (thorough): 256-bit symbolic multiplication/remainder does not finish in z3",
+    ["the modular identity with exact arithmetic for moduli above 13: 256-bit symbolic multiplication/remainder does not finish in z3 (p = 251 closes in 5 s on a quiet machine but is unknown under load, so it is not registered)",
      "vector lengths other than 1, 3 (x2 calls), 2 (kernel); thorough adds 9 (m=17: solver unknown at the thorough time-out; m=65 does not finish within 50 min); lengths across the 512-row extension chunk boundary are covered for the IKNP layer itself by C06 (n=513) but not re-run under VOLE",
      "inputs x_i >= 2^256 or negative (bytes32 panics / big.Int.Bytes drops the sign: outside the documented domain of field elements)",
      "NewSender/NewReceiver (base OT set-up)"],
